@@ -2,30 +2,30 @@
 from .. import lib, runner
 
 PROP = "C03"
-THEOREMS = ["RangeMap.overlaps_exact", "RangeMap.insert_inv", "RangeMap.get_exact"]
+THEOREMS = ["MapTree.all_within", "MapTree.all_sorted", "MapTree.decode_complete", "RangeMap.get_exact"]
 IMPORTS = ["SocVerif"]
 
 
 def nontrivial(r):
     s = r["stats"]
-    return s["refused"] >= 1 and s["inserted_not_last"] >= 1
+    return s["depth2"] >= 1 and s["win_not_at_0"] >= 1
 
 
 def sample(r):
-    return {"ops": [list(map(str, o)) for o in r["case"]["ops"][:12]], "answers": r["obs"][:12]}
+    return {"structure_and_queries": r["lines"][:14], "answers": [x[:160] for x in r["obs"][:3]]}
 
 
 def run(rep, tier):
     lib.proof_gate(rep, PROP, THEOREMS, IMPORTS)
-    n = 400 if tier == "quick" else 40000
-    agg = runner.correspondence(rep, prop=PROP, mod_name="harness.mm", driver_kind="mmap", ncases=n,
+    n = 400 if tier == "quick" else 30000
+    agg = runner.correspondence(rep, prop=PROP, mod_name="harness.mm", driver_kind="tree", ncases=n,
                                 extra=("tree",), nontrivial=nontrivial, oracle_props={"C03"},
                                 sample_fmt=sample)
     rep.coverage.update(agg)
-    rep.coverage["rule"] = ("generated API histories on real MemoryMap objects (add_resource/add_window/align_to/"
-                            "freeze/hand-off, valid and invalid arguments, nested children); after every call the "
-                            "answer, resources(), windows() and a cursor probe are compared with the Lean model and "
-                            "the property's clauses are evaluated on the real answers; non-trivial = history with "
-                            ">=1 refusal and >=1 insertion that is not at the end of the range list; distinct = "
-                            "distinct protocol transcripts")
-    rep.assumptions += ["bool name parts (True == 1) and maps containing themselves are outside the generator"]
+    rep.coverage["rule"] = ("random trees of real MemoryMaps (depth<=4, named/anonymous, sparse, ratio-1 and dense 2/4/8 "
+                            "windows); the local structure reported by resources()/windows() is sent to the Lean model, "
+                            "whose all_resources/decode_address/find_resource traversals are compared with the real ones: "
+                            "every root address decoded, every resource and three never-added objects looked up; the "
+                            "property's clauses (decode ⇔ reported range, ascending, disjoint, find = all) are evaluated "
+                            "on the real answers; non-trivial = tree of depth>=2 with a window not at address 0")
+    rep.assumptions += ["maps containing themselves (not a tree) are outside the generator"]
